@@ -109,6 +109,18 @@ func (gc *primaryGC) run(interval, timeLimit time.Duration) {
 // of storage reclaimed.
 func (gc *primaryGC) gc(ctx context.Context, lowUsePercent int64, timeLimit time.Duration) (int64, error) {
 	gc.reclaimed = 0
+
+	// Hand the freelist over first and then flush the primary, so that every
+	// record named by the handed-over freelist is on disk before the freelist
+	// is applied. Otherwise an entry for a record that is still pooled is
+	// consumed without effect and the stale record survives.
+	if _, err := gc.freeList.ToGC(); err != nil {
+		return 0, fmt.Errorf("cannot get freelist gc file: %w", err)
+	}
+	if _, err := gc.primary.Flush(); err != nil {
+		return 0, fmt.Errorf("cannot flush primary: %w", err)
+	}
+
 	affectedSet, err := processFreeList(ctx, gc.freeList, gc.primary.basePath, gc.primary.maxFileSize)
 	if err != nil {
 		if err == context.DeadlineExceeded {
